@@ -1,10 +1,224 @@
-// Package c08 holds the runtime monitors for property C08 (see DESIGN.md section 4).
+// Package c08 holds the runtime monitors for property C08: formatting
+// preserves program meaning and is idempotent (see DESIGN.md section 4).
+//
+// For every generated source s that parser.Parse accepts (tree t1) the real
+// parser.PrettyPrint and parser.Parse are run: p1 = PrettyPrint(t1) must parse,
+// its tree must equal t1 under the harness' own structural walk (tree.go),
+// PrettyPrint(Parse(p1)) must equal p1, a sample of s / p1 pairs is evaluated
+// by the real interpreter and compared, and tool.FormatFiles is run on
+// temporary directory trees of such files.
 package c08
 
-import "verif/harness/core"
+import (
+	"flag"
+	"fmt"
+	"io"
+	"os"
+	"runtime"
+	"time"
+
+	"github.com/krotik/ecal/parser"
+
+	"verif/harness/core"
+)
 
 func init() { core.Register("C08", Run) }
 
+type streamDef struct {
+	name  string
+	count func(c *core.Ctx) int
+	gen   func(c *core.Ctx, idx int) gcase
+}
+
+var streams = []streamDef{
+	{"op2", func(c *core.Ctx) int { return len(op2build()) }, op2gen},
+	{"op3", op3count, op3gen},
+	{"stmt2", stmt2count, stmt2gen},
+	{"stmt3", stmt3count, stmt3gen},
+	{"str", strCount, strGen},
+	{"str-ctx", strCtxCount, strCtxGen},
+	{"cmt1", func(c *core.Ctx) int { return len(cmt1build()) }, cmt1gen},
+	{"cmt2", cmt2count, cmt2gen},
+	{"cont", func(c *core.Ctx) int { return len(contBuild()) }, contGen},
+	{"sink", sinkCount, sinkGen},
+	{"rand", randCount, randGen},
+	{"corpus", corpusCount, corpusGen},
+}
+
+func streamByName(name string) *streamDef {
+	for i := range streams {
+		if streams[i].name == name {
+			return &streams[i]
+		}
+	}
+	return nil
+}
+
+type checker struct {
+	c        *core.Ctx
+	seen     map[string]int
+	keyCache map[string]string
+}
+
+const maxRecordsPerKey = 8
+
 // Run is the check.
 func Run(c *core.Ctx) {
+	c.Note("rule", "sources: (op2) exhaustive depth-2 operator nesting: every operator (20 infix incl. :=, 3 prefix) as parent x every operator as child x child position x with/without source parentheses x 5 operand sets x 7 expression contexts (bare, list, if guard, call argument, map value, parameter default, return) x 3 layouts; (op3) all 5 tree shapes + the unparenthesised chain over 4 leaves for every triple of 10 representative operators, with a prefix operator on any node; (stmt2) every statement kind ("+
+		"assignment, let, destructuring, calls, if/elif/else, the loop forms, break/continue/return, named/anonymous functions with defaults, try with every clause shape, mutex, import, sink, container and string statements, object templates) in every block kind (top level, if/elif/else, both loops, named/anonymous function, try/except/otherwise/finally, mutex, sink, function inside map / list / call) x 4 positions in the block x 4 layouts; (stmt3) random 2-3 level nestings of those; (str, str-ctx) every sequence of <=3 (thorough <=4) pieces of a 34-piece alphabet (quotes, backslashes, escapes, newlines, {{ }}, non-ASCII, invalid UTF-8, comment markers, braces, control characters) in the 4 literal styles \"..\" '..' r\"..\" r'..' in 14 contexts; (cmt1) 14 comment forms (#, /* */, multi-line, several on one position, glued) at every token gap of 10 template programs in 2 layouts; (cmt2) random 2-3 comments; (cont) lists with 0..6 and maps with 0..4 entries with one special element (nested list 0..6 / map 0..4, function literal, operator, call, multi-line raw string) at every position x 13 contexts x 3 layouts x trailing comma; (sink) every subset of the 5 sink attributes x 3 orders x comma/no comma x 3 bodies x 4 contexts x 3 layouts; (rand) seeded random programs of depth <=4 with random redundant parentheses, literal styles, layouts and comments; (corpus) hand-written example-style programs; (fmt) tool.FormatFiles on temp trees of such files with nested directories, other extensions, unparseable, empty and CRLF files, run twice. "+
+		"A source that does not parse is outside the property and only counted. Non-trivial/distinct = distinct parse trees (node kinds, values, string kinds, nesting and comment placement) of sources that parse; every one of them went through PrettyPrint, re-Parse, own structural comparison and a second PrettyPrint. Trees are compared up to positions, comments, blank lines and the spelling of keyword tokens (keywords are case-insensitive). Evaluation sample: all pure-expression cases, and block programs with loops bounded by construction when the trees are equal; result, error type/detail and log trace are compared.")
+	flag.CommandLine.SetOutput(io.Discard) // FormatFiles reports unparseable files there
+	// The check is sequential (the parser rewrites a package-level table while
+	// parsing if / for, so parses must not overlap); with one P the hand-over
+	// between the lexer goroutine and the parser is a direct switch.
+	runtime.GOMAXPROCS(1)
+	k := &checker{c: c, seen: map[string]int{}, keyCache: map[string]string{}}
+	for si := range streams {
+		s := &streams[si]
+		n := s.count(c)
+		t0 := time.Now()
+		defer func(name string) {
+			if os.Getenv("C08_TIMING") != "" {
+				fmt.Fprintln(os.Stderr, name, time.Since(t0))
+			}
+		}(s.name)
+		for i := 0; i < n; i++ {
+			if !c.Take(s.name, i) {
+				continue
+			}
+			g := s.gen(c, i)
+			k.check(s.name, i, g)
+			if i%9973 == 11 {
+				c.Sample(s.name, g.src)
+			}
+		}
+	}
+	nf := c.Pick(64, 1600)
+	for i := 0; i < nf; i++ {
+		if !c.Take("fmt", i) {
+			continue
+		}
+		k.formatCase(i)
+	}
+	c.End(0)
+}
+
+func trunc(s string, n int) string {
+	if len(s) > n {
+		return s[:n] + "..."
+	}
+	return s
+}
+
+// check runs the oracle on one source.
+func (k *checker) check(stream string, idx int, g gcase) {
+	c := k.c
+	c.Begin(0, stream, idx, g.src)
+	var t1 *parser.ASTNode
+	var err error
+	_, _, pan := core.Guard(func() { t1, err = parser.Parse("c08", g.src) })
+	if pan {
+		c.Event("source.parse-panic (not a C08 matter)", 1)
+		return
+	}
+	if err != nil {
+		c.Event("source.noparse", 1)
+		c.Event("noparse."+stream, 1)
+		return
+	}
+	if t1 == nil || hasNil(t1) {
+		c.Event("source.tree-with-nil-node (not a C08 matter)", 1)
+		return
+	}
+	c.Event("source.parsed", 1)
+	c.Event("parsed."+stream, 1)
+	c.Nontrivial(core.Hash64(renderMeta(t1)))
+	p1, _, f := roundTrip(t1)
+	if f == nil {
+		c.Event("roundtrip.ok (p1 parses, trees equal, second print identical)", 1)
+	}
+	var e1, e2 *evalOut
+	p1parses := f == nil || f.cat == "structure" || f.cat == "nonidempotent"
+	if (g.eval == 1 && p1parses) || (g.eval == 2 && (f == nil || f.cat == "nonidempotent")) {
+		a, b := evalProgram(g.src), evalProgram(p1)
+		e1, e2 = &a, &b
+		c.Event("eval.compared", 1)
+		if a.budget && b.budget {
+			c.Event("eval.both-exceed-visit-budget", 1)
+		} else if sameEval(a, b) {
+			c.Event("eval.equal", 1)
+			if a.err == "" && a.panicked == "" {
+				c.Event("eval.equal.no-error", 1)
+			}
+		} else if f != nil && f.cat == "structure" {
+			c.Event("eval.differs (trees differ too)", 1)
+		} else {
+			c.Event("eval.differs-with-equal-trees", 1)
+			k.seen["behaviour"]++
+			if k.seen["behaviour"] <= maxRecordsPerKey || c.Replay() {
+				c.Violation("behaviour-differs-with-equal-trees", "source and formatted source evaluate differently although their trees are equal under the harness' walk", stream, idx,
+					map[string]interface{}{"source": g.src, "printed": p1, "eval_source": a.String(), "eval_printed": b.String()})
+			}
+		}
+	}
+	if f != nil {
+		k.report(stream, idx, g.src, t1, f, e1, e2, "")
+	}
+}
+
+var whatText = map[string]string{
+	"pp-panic":      "PrettyPrint panicked on a tree that Parse returned",
+	"pp-error":      "PrettyPrint returned an error for a tree that Parse returned",
+	"unparseable":   "the pretty-printed text does not parse",
+	"structure":     "the pretty-printed text parses to a different tree",
+	"nonidempotent": "pretty printing the pretty-printed text again gives a different text",
+}
+
+func (k *checker) keyFor(t1 *parser.ASTNode, f *failure) (string, *parser.ASTNode, *failure) {
+	ck := f.cat + "|" + renderMeta(t1)
+	if key, ok := k.keyCache[ck]; ok && k.seen[key] > maxRecordsPerKey && !k.c.Replay() {
+		return key, nil, nil
+	}
+	m := shrink(t1, f)
+	_, _, mf := roundTrip(m)
+	if mf == nil || mf.cat != f.cat || !hasSubCat(mf, subCat(f)) {
+		m, mf = t1, f
+	}
+	key := classify(m, mf)
+	if len(k.keyCache) < 200000 {
+		k.keyCache[ck] = key
+	}
+	return key, m, mf
+}
+
+func (k *checker) report(stream string, idx int, src string, t1 *parser.ASTNode, f *failure, e1, e2 *evalOut, via string) {
+	c := k.c
+	key, m, mf := k.keyFor(t1, f)
+	c.Event("violation."+key, 1)
+	k.seen[key]++
+	if (k.seen[key] > maxRecordsPerKey && !c.Replay()) || m == nil {
+		return
+	}
+	detail := map[string]interface{}{
+		"source": src, "printed": f.p1, "problem": f.msg, "tree": trunc(renderMeta(t1), 1500),
+		"minimal_tree": renderMeta(m), "minimal_printed": mf.p1, "minimal_problem": mf.msg,
+	}
+	if f.p2 != "" {
+		detail["printed_again"] = f.p2
+	}
+	if mf.p2 != "" {
+		detail["minimal_printed_again"] = mf.p2
+	}
+	if mf.t2 != nil && mf.cat == "structure" {
+		detail["minimal_reparsed_tree"] = render(mf.t2)
+	}
+	if e1 != nil && e2 != nil {
+		detail["eval_source"] = e1.String()
+		detail["eval_printed"] = e2.String()
+	}
+	what := whatText[f.cat]
+	if via != "" {
+		what = via + ": " + what
+	}
+	c.Violation(key, what, stream, idx, detail)
 }
